@@ -199,3 +199,11 @@ Proof.
   apply (mtag_exact_partial_c ex_mtag ex_array RangeMatch_Exclusive 1 [4; 0] [2; 2] H1 P (H2 1 ltac:(cbn; tauto))).
   vm_compute. reflexivity.
 Qed.
+
+Theorem mtag_views_meet_oracle_c mt a m idxs : mtag_not_pinned mt a m -> (forall i, In i idxs -> 0 <= i) ->
+  match spec_mtag_views (incl_of m) mt a idxs with
+  | Region vs => taggedData_mtag repaired_except_pinned mt idxs a m = Ok (map strip vs)
+  | Refuse => taggedData_mtag repaired_except_pinned mt idxs a m = Err E_OutOfBounds
+  | Unconstrained => True
+  end.
+Proof. intros Hp Hi. apply mtag_views_meet_oracle_gen; [exact HC|apply repaired_pinned_flags|right; exact Hp|exact Hi]. Qed.
